@@ -3,9 +3,9 @@
 import json, os, shutil, sys
 pid = sys.argv[1]
 rnd = sys.argv[2] if len(sys.argv) > 2 else "1"          # round 1: /tmp/ref-Cxx-out -> Axx-k ; round 2: /tmp/rf2-Cxx-out -> Bxx-k
-out = ("/tmp/ref-%s-out" if rnd == "1" else "/tmp/rf2-%s-out") % pid
-sub = "agent" if rnd == "1" else "agent2"
-pre = "A" if rnd == "1" else "B"
+out = {"1": "/tmp/ref-%s-out", "2": "/tmp/rf2-%s-out", "3": "/tmp/rf3-%s-out"}[rnd] % pid
+sub = {"1": "agent", "2": "agent2", "3": "agent3"}[rnd]
+pre = {"1": "A", "2": "B", "3": "D"}[rnd]
 p = "/verif/mutants/specs.json"
 d = json.load(open(p))
 names = {m["name"] for m in d}
